@@ -19,7 +19,8 @@ import ClairModel.Model.MatchersLang
          the same call answered with the C12 models of pep440 / gem / maven on the strings
     vercmp <kind> <v0,..,v9> <kind> <v0,..,v9>            -> -1 | 0 | 1
     range <nil|set> <lkind> <l..> <ukind> <u..> <vkind> <v..>   -> true | false
-    ctl <versionFilter 0|1> <authoritative 0|1> <dbhit 0|1> <matcher> <vuln fields…>  -> true | false | err | hang
+    ctl <versionFilter 0|1> <authoritative 0|1> <nil|set> <lkind> <l..> <ukind> <u..> <vkind> <v..> <matcher> <vuln fields…>
+                                         -> true | false | err | hang
     rpmstr <a>                           -> hex of NewVersion(a).String()
     archop <op> <a> <b> <re>             -> true | false
     vuln <matcher> <pkgver> <pkgarch> <fixed> <vulnpkgver> <vulnpkgarch> <archop> <re> [<gate>]
@@ -168,7 +169,10 @@ def answer (l : String) : Option String :=
     let r : NRange := { lower := ← parseNVersion lk lv, upper := ← parseNVersion uk uv }
     let v ← parseNVersion vk vv
     pure (toString (rangeContains (if tag == "nil" then none else some r) v))
-  | "ctl" :: vf :: au :: hit :: m :: pv :: pa :: fx :: vv :: va :: op :: re :: rest => do
+  | "ctl" :: vf :: au :: tag :: lk :: lv :: uk :: uv :: nk :: nv :: m :: pv :: pa :: fx :: vv :: va :: op :: re :: rest => do
+    let rg : NRange := { lower := ← parseNVersion lk lv, upper := ← parseNVersion uk uv }
+    let nver ← parseNVersion nk nv
+    let hit := dbSideHit (if tag == "nil" then none else some rg) nver
     let p : Pkg := { version := ← str pv, arch := ← str pa }
     let v : Vuln := { fixed := ← str fx, pkgVersion := ← str vv, pkgArch := ← str va,
                       archOp := ← op.toNat?, re := ← parseRe re }
@@ -176,7 +180,7 @@ def answer (l : String) : Option String :=
       | [] => pure none
       | [g] => (parseGate g).map some
       | _ => none
-    pure (outStr (controllerKeeps (vf == "1") (au == "1") (hit == "1") (← vulnLine m p v gate)))
+    pure (outStr (controllerKeeps (vf == "1") (au == "1") hit (← vulnLine m p v gate)))
   | "vuln" :: m :: pv :: pa :: fx :: vv :: va :: op :: re :: rest => do
     let p : Pkg := { version := ← str pv, arch := ← str pa }
     let v : Vuln := { fixed := ← str fx, pkgVersion := ← str vv, pkgArch := ← str va,
